@@ -157,6 +157,8 @@ def check_real(case):
     cfg = case["cfg"]
     dt = {"float64": np.float64, "float32": np.float32, "int64": np.int64}[case["dtype"]]
     X = np.array(case["X"], dtype=dt).reshape(len(case["X"]), cfg["n"])
+    for j in case.get("null_columns", []):
+        X[:, j % cfg["n"]] = 0               # a feature that is zero on the whole batch (a one-hot level absent from it, a single row with a zero)
     X0 = X.copy()
     facts = dict(cfg, dtype=case["dtype"])
     ef, out, ref = _run(cfg, X, facts, np_params=case.get("np_params", False))
@@ -206,7 +208,7 @@ def check_real(case):
     _, out2, _ = _run(other, X, dict(facts, kind=other["kind"]))
     require(np.array_equal(np.asarray(out), np.asarray(out2)), "kinds-differ", "poly and poly-slow disagree", facts)
     return Outcome([cfg["kind"], case["dtype"], "degree=%d" % cfg["degree"], "interaction" if cfg["interaction_only"] else "all",
-                    "has-zero" if (X == 0).any() else "no-zero"], cfg["degree"] >= 2)
+                    "has-zero" if (X == 0).any() else "no-zero", "null-column" if bool((X == 0).all(axis=0).any()) else "no-null-column"], cfg["degree"] >= 2)
 
 
 @st.composite
@@ -224,7 +226,7 @@ def _real_cases(draw, tier="quick"):
     else:
         cell = st.integers(-9, 9)
     X = draw(st.lists(st.lists(cell, min_size=n, max_size=n), min_size=rows, max_size=rows))
-    return dict(cfg=cfg, dtype=dtype, X=X)
+    return dict(cfg=cfg, dtype=dtype, X=X, null_columns=draw(st.lists(st.integers(0, 8), min_size=1, max_size=2)) if draw(st.integers(0, 3)) == 0 else [])
 
 
 CLAUSES = [
